@@ -5,6 +5,7 @@ import (
 	"context"
 	"fmt"
 	"io"
+	"strings"
 
 	"github.com/github/go-pipe/pipe"
 )
@@ -65,19 +66,38 @@ func (repo *Repository) NewObjectIter(ctx context.Context) (*ObjectIter, error) 
 
 		// Read the output of `git rev-list --objects`, strip off any
 		// trailing information, and write the OIDs to `git cat-file`:
-		pipe.LinewiseFunction(
+		pipe.Function(
 			"copy-oids",
-			func(_ context.Context, _ pipe.Env, line []byte, stdout *bufio.Writer) error {
-				if len(line) < 40 {
-					return fmt.Errorf("line too short: '%s'", line)
+			func(_ context.Context, _ pipe.Env, stdin io.Reader, stdout io.Writer) error {
+				// The paths that follow the OIDs can be arbitrarily
+				// long, so don't read the lines using a
+				// `bufio.Scanner`, which limits their length:
+				in := bufio.NewReader(stdin)
+				out := bufio.NewWriter(stdout)
+
+				for {
+					line, err := in.ReadString('\n')
+					if err != nil && err != io.EOF {
+						return fmt.Errorf("reading from 'git rev-list': %w", err)
+					}
+					if len(line) > 0 {
+						line = strings.TrimSuffix(line, "\n")
+						if len(line) < 40 {
+							return fmt.Errorf("line too short: '%s'", line)
+						}
+						if _, err := out.WriteString(line[:40]); err != nil {
+							return fmt.Errorf("writing OID to 'git cat-file': %w", err)
+						}
+						if err := out.WriteByte('\n'); err != nil {
+							return fmt.Errorf("writing LF to 'git cat-file': %w", err)
+						}
+					}
+					if err == io.EOF {
+						break
+					}
 				}
-				if _, err := stdout.Write(line[:40]); err != nil {
-					return fmt.Errorf("writing OID to 'git cat-file': %w", err)
-				}
-				if err := stdout.WriteByte('\n'); err != nil {
-					return fmt.Errorf("writing LF to 'git cat-file': %w", err)
-				}
-				return nil
+
+				return out.Flush()
 			},
 		),
 
